@@ -235,11 +235,20 @@ def check_to(model, rep, sx: SX, tables: UnitTables, R='C05.to'):
             copy_vals, inplace_vals = [], []
             saw_keyerror = False
             problems = []
+        # the default of `inplace`: every internal `other.to(self.unit)` relies on the copying default
+        dflt = {a.arg: d for a, d in zip(m.node.args.args[len(m.node.args.args) - len(m.node.args.defaults):], m.node.args.defaults)}
+        if 'inplace' in dflt and not (isinstance(dflt['inplace'], ast.Constant) and dflt['inplace'].value is False):
+            problems.append((m.node.lineno, f'to() converts in place by default (inplace={ast.unparse(dflt["inplace"])}): every `x.to(unit)` then rewrites x'))
         for o in outs:
+            member = [g for g in o.state.guards if g.kind == 'in' and 'target_unit' in str(g.key[0]) and '__UNITS' in str(g.key[1])]
             if o.kind == 'raise':
                 if o.value == 'KeyError':
                     saw_keyerror = True
+                    if any(g.pol for g in member):
+                        problems.append((o.loc, 'KeyError is raised for a target unit that IS in the unit table'))
                 continue
+            if any(not g.pol for g in member):
+                problems.append((o.loc, 'a target unit that is not in the unit table is converted instead of rejected'))
             # equal-unit guard: target_unit == self unit  =>  identify the two unit factors
             subst = {}
             for g in o.state.guards:
@@ -439,6 +448,10 @@ def check_ctor_stores(model, rep, sx, R='C05.ctor'):
                 fld = sx.trivial_getter_field(kind, prop)
                 own = f'_{kind}__{prop}'
                 need = {fld} | ({own} if any(k == own for k in st) or own == fld else set())
+                # every class of the hierarchy that READS its own private copy (`self.__value` inside class C is `_C__value`)
+                need |= {f'_{c}__{prop}' for c in model.mro(kind) if c in model.classes and any(
+                    isinstance(n_, ast.Attribute) and n_.attr == f'__{prop}' and isinstance(n_.ctx, ast.Load)
+                    for mm in model.classes[c].all_members() for n_ in ast.walk(mm.node))}
                 if fld is None:
                     ok, why = False, f'the {prop} property does not return a stored field'
                     continue
